@@ -44,6 +44,7 @@ type op struct {
 	LinkP, LinkU string   // OSC 8 params and URI
 	End          string   // OSC terminator
 	L            bool     // observe this step lightly (size, cursor, wrap flag, region) even after the preamble
+	X            []string // Name "XSGR": the commands with their spelling (constructors of VtSgrSpell.v); bytes in SgrB
 }
 
 var final1 = map[string]string{"CUU": "A", "CUD": "B", "CUF": "C", "CUB": "D", "CNL": "E", "CPL": "F", "CHA": "G",
@@ -74,7 +75,7 @@ func (o op) bytes() string {
 			return "\x1b[" + a.text() + ";" + b.text() + f
 		}
 	}
-	if o.Name == "SGR" {
+	if o.Name == "SGR" || o.Name == "XSGR" {
 		return "\x1b[" + o.SgrB + "m"
 	}
 	if o.Name == "Link" {
@@ -279,42 +280,52 @@ func main() {
 		"c06_vt_mismatches", "c06_vt_violations_every")
 	s.ShardMax = 60
 
+	// the same histories with SGR in every spelling of the extended colours (sgrspell.go)
+	sx := hx.NewStream("sgrx", "model.Colour model.Sgr model.Term model.TermCheck model.VtSpec model.TermAbs model.VtCheck model.VtSgrSpell", "xvt_case",
+		"c06_sgrx_mismatches", "c06_sgrx_violations")
+	sx.ShardMax = 60
+
 	reparsed := 0
-	runCase := func(w, h int, skip int, ops []op, tags ...string) {
-		r := &termhx.Runner{FullEvery: 1}
-		r.Start(w, h)
-		r.FullEvery = 0
-		var coqSteps, names []string
-		kinds := map[string]bool{}
-		for i, o := range ops {
-			if r.Dead {
-				break
-			}
+	var runCase, runX func(w, h int, skip int, ops []op, tags ...string)
+	mkRun := func(s *hx.Stream, coqOf func(op) string) func(w, h int, skip int, ops []op, tags ...string) {
+		return func(w, h int, skip int, ops []op, tags ...string) {
+			r := &termhx.Runner{FullEvery: 1}
+			r.Start(w, h)
 			r.FullEvery = 0
-			if i >= skip && !o.L {
-				r.FullEvery = 1
+			var coqSteps, names []string
+			kinds := map[string]bool{}
+			for i, o := range ops {
+				if r.Dead {
+					break
+				}
+				r.FullEvery = 0
+				if i >= skip && !o.L {
+					r.FullEvery = 1
+				}
+				// one operation is one sequence; under machine load the parser's
+				// 10 ms escape timer can split "ESC [" (C08's subject, not ours):
+				// parse again until the bytes arrive as one sequence
+				seqs := termhx.Parse([]byte(o.bytes()))
+				for try := 0; len(seqs) != 1 && try < 20; try++ {
+					reparsed++
+					seqs = termhx.Parse([]byte(o.bytes()))
+				}
+				if len(seqs) != 1 {
+					panic(fmt.Sprintf("operation %s produced %d sequences", o.coq(), len(seqs)))
+				}
+				r.FeedSeq(seqs[0], true, fmt.Sprintf("%q", o.bytes()))
+				st := r.Steps[len(r.Steps)-1]
+				coqSteps = append(coqSteps, fmt.Sprintf("(%s, %s, %s)", coqOf(o), st.Item.Coq(), st.Obs.Coq()))
+				names = append(names, coqOf(o))
+				kinds[o.Name] = true
 			}
-			// one operation is one sequence; under machine load the parser's
-			// 10 ms escape timer can split "ESC [" (C08's subject, not ours):
-			// parse again until the bytes arrive as one sequence
-			seqs := termhx.Parse([]byte(o.bytes()))
-			for try := 0; len(seqs) != 1 && try < 20; try++ {
-				reparsed++
-				seqs = termhx.Parse([]byte(o.bytes()))
-			}
-			if len(seqs) != 1 {
-				panic(fmt.Sprintf("operation %s produced %d sequences", o.coq(), len(seqs)))
-			}
-			r.FeedSeq(seqs[0], true, fmt.Sprintf("%q", o.bytes()))
-			st := r.Steps[len(r.Steps)-1]
-			coqSteps = append(coqSteps, fmt.Sprintf("(%s, %s, %s)", o.coq(), st.Item.Coq(), st.Obs.Coq()))
-			names = append(names, o.coq())
-			kinds[o.Name] = true
+			r.Finish()
+			term := fmt.Sprintf("(%d, %d, %s, [%s])", w, h, r.Steps[0].Obs.Coq(), strings.Join(coqSteps, ";\n "))
+			s.Add(term, caseJSON{W: w, H: h, Ops: names, Steps: r.Steps}, len(kinds) >= 3, tags...)
 		}
-		r.Finish()
-		term := fmt.Sprintf("(%d, %d, %s, [%s])", w, h, r.Steps[0].Obs.Coq(), strings.Join(coqSteps, ";\n "))
-		s.Add(term, caseJSON{W: w, H: h, Ops: names, Steps: r.Steps}, len(kinds) >= 3, tags...)
 	}
+	runCase = mkRun(s, func(o op) string { return o.coq() })
+	runX = mkRun(sx, func(o op) string { return o.xcoq() })
 
 	// preambles that fill the screen with distinct glyphs so that every shift shows
 	fill := func(g *gen, styled bool) []op {
@@ -434,8 +445,10 @@ func main() {
 	}
 	// directed boundary classes and random histories biased towards them (boundary.go)
 	boundary(cfg.Thorough(), cfg.Rand, runCase, fill)
-	cfg.Write("C06", "operation sequences over the vocabulary of VtSpec.v (printable narrow and wide text, CR, LF, IND, RI, NEL, CUU..CUP/HVP, ED, EL, ECH, ICH, DCH, IL, DL, SU, SD, DECSTBM, DECSC, DECRC, alternate screen, SGR, OSC 8 hyperlinks with targets and parameters over an alphabet containing \";\", \":\", \"=\") with parameters omitted, 0, 1, 2, size-1, size, size+1 and huge, on screens from 2x2: (a) every operation shape once after a preamble that fills the screen with distinct glyphs (plain and styled) and places the cursor in a corner, the middle or an edge, followed by one more glyph; thorough: also pairs of shapes inside a scrolling region; (b) random histories of 6-45 operations; (c) boundaries: on small screens every scrolling region shape (and none), the cursor on every line (on / one above / one below either margin, first, last line), then CUU CUD CNL CPL VPR VPA with every parameter omitted, 0..height+1, 65535, 65536, 2^63-1, IL DL SU SD with parameters around the distance to the bottom margin and the region height and huge, IND RI NEL LF, and autowrap by a narrow glyph, a wide glyph that does not fit and after a wide glyph ending in the last column; every column with CUF CUB HPR CHA HPA ECH ICH DCH ED EL and glyphs; the deferred-wrap state (after a narrow or a wide glyph, inside / on the bottom margin of / below / above a region) followed by every operation specified in it (CUP/HVP onto the same cell, beyond the width, elsewhere; CHA HPA VPA CR SGR hyperlink glyphs) and two glyphs; DECSC/DECRC/1049 combinations with differing saved position and pen on both screens; saved cursors against scrolling regions: every region shape (and none) x the saved line on every line of the screen (above, on either margin, inside, below the region) x DECSC..DECRC on the normal screen, ?1049h..?1049l, DECSC..DECRC on the alternate screen x the region set before the save or between the save and the restore, then a glyph, an index and a second restore; (d) random histories that aim at those positions, with save / change region / work elsewhere / restore episodes started on lines near and below the margins; written as bytes, parsed by the real ansi.Parser; the complete emulator state is observed after every operation under test (size, cursor, wrap flag and region after every other one); non-trivial = at least three different operations in the history",
-		[]*hx.Stream{s}, map[string]interface{}{"reparsed_after_escape_timer": reparsed}, nil)
+	// SGR: every spelling of indexed and direct colours for 38, 48 and 58 (sgrspell.go)
+	sgrSpellings(cfg.Thorough(), cfg.Rand, runX)
+	cfg.Write("C06", "operation sequences over the vocabulary of VtSpec.v (printable narrow and wide text, CR, LF, IND, RI, NEL, CUU..CUP/HVP, ED, EL, ECH, ICH, DCH, IL, DL, SU, SD, DECSTBM, DECSC, DECRC, alternate screen, SGR, OSC 8 hyperlinks with targets and parameters over an alphabet containing \";\", \":\", \"=\") with parameters omitted, 0, 1, 2, size-1, size, size+1 and huge, on screens from 2x2: (a) every operation shape once after a preamble that fills the screen with distinct glyphs (plain and styled) and places the cursor in a corner, the middle or an edge, followed by one more glyph; thorough: also pairs of shapes inside a scrolling region; (b) random histories of 6-45 operations; (c) boundaries: on small screens every scrolling region shape (and none), the cursor on every line (on / one above / one below either margin, first, last line), then CUU CUD CNL CPL VPR VPA with every parameter omitted, 0..height+1, 65535, 65536, 2^63-1, IL DL SU SD with parameters around the distance to the bottom margin and the region height and huge, IND RI NEL LF, and autowrap by a narrow glyph, a wide glyph that does not fit and after a wide glyph ending in the last column; every column with CUF CUB HPR CHA HPA ECH ICH DCH ED EL and glyphs; the deferred-wrap state (after a narrow or a wide glyph, inside / on the bottom margin of / below / above a region) followed by every operation specified in it (CUP/HVP onto the same cell, beyond the width, elsewhere; CHA HPA VPA CR SGR hyperlink glyphs) and two glyphs; DECSC/DECRC/1049 combinations with differing saved position and pen on both screens; saved cursors against scrolling regions: every region shape (and none) x the saved line on every line of the screen (above, on either margin, inside, below the region) x DECSC..DECRC on the normal screen, ?1049h..?1049l, DECSC..DECRC on the alternate screen x the region set before the save or between the save and the restore, then a glyph, an index and a second restore; (d) random histories that aim at those positions, with save / change region / work elsewhere / restore episodes started on lines near and below the margins; written as bytes, parsed by the real ansi.Parser; the complete emulator state is observed after every operation under test (size, cursor, wrap flag and region after every other one); (e) stream sgrx: SGR with every spelling of the indexed and direct colours of the foreground (38), background (48) and underline colour (58): semicolons, colons, colons with the colourspace slot (empty, 0, a number), colon forms that spell nothing (38:5, 38:2, 38:2:r:g), semicolon forms cut short by the end of the sequence, alone and inside longer parameter lists, from a default and a coloured pen, each followed by a glyph, EL, ICH, ECH, a wide glyph, DCH, IL and a scroll so that the pen reaches printed and erased cells; random histories of the whole vocabulary with such SGRs mixed in; non-trivial = at least three different operations in the history",
+		[]*hx.Stream{s, sx}, map[string]interface{}{"reparsed_after_escape_timer": reparsed}, nil)
 }
 
 func maxi(a, b int) int {
